@@ -363,3 +363,11 @@ PLANS["C17"] = {
             "printed model is then given back to a fresh solver as define-funs together with the assertions, which must be accepted and satisfiable "
             "(the specification evaluates the assertions under the read definitions); non-trivial = something was printed and read",
 }
+
+PLANS["C10"] = {
+    "jobs": lambda seed, tier: spread(seed, "C10", N(tier, 130, 2600), ["QF_BOOL", "QF_UF", "QF_LRA", "QF_LIA", "QF_IDL", "QF_UFLRA", "QF_RDL", "QF_UFLIA"], "proofs"),
+    "rule": "unsat scripts with :produce-proofs over 8 logics, incremental histories (unsat levels popped and re-entered, repeated get-proof); "
+            "Proof.tla checks: names bound once and before use, every resolution step has its pivot with opposite signs, the referenced final clause "
+            "is bound and empty, activations refer to levels on the stack, every other leaf is implied by the current assertions (no model of "
+            "assertions and negated leaf among the candidates); non-trivial = a proof was printed and read",
+}
